@@ -118,6 +118,14 @@ class Recorder:
         return trace
 
 
+def matching_view(want):
+    """a destination of the entry's dtype and shape that CANNOT be flattened without a copy: a reversed-dims permutation
+    of a contiguous buffer (for a 2-d tensor: the transpose of a buffer of the transposed shape)"""
+    import torch
+    perm = list(range(want.dim()))[::-1]
+    return torch.zeros([want.shape[p] for p in perm], dtype=want.dtype).permute(perm)
+
+
 def entry_kind(entry):
     return type(entry).__name__
 
@@ -158,13 +166,15 @@ def correspond(ctx: Ctx) -> Result:
                     size = esize * want.numel()
                     cand = sorted({1, max(esize - 1, 1), esize, esize + 1, max(size // 2, 1), max(size, 1), size + 1})
                     budgets = [None] + rng.sample(cand, min(3 if not ctx.thorough else 9, len(cand)))
-                    outs = ["none", "match", "mismatch"]
+                    outs = ["none", "match", "mismatch"] + (["match-view"] if want.dim() >= 2 else [])
                 else:
                     budgets, outs = [None, 1], ["none"]
                 for b in budgets:
                     for ok in (outs if (ctx.thorough or b is None) else [rng.choice(outs)]):
                         if ok == "match":
                             obj_out = torch.zeros(list(want.shape), dtype=want.dtype)
+                        elif ok == "match-view":
+                            obj_out = matching_view(want)
                         elif ok == "mismatch":
                             obj_out = torch.ones([2] + list(want.shape), dtype=torch.float32)
                         else:
@@ -185,15 +195,16 @@ def correspond(ctx: Ctx) -> Result:
                         d = sg.equal_exact(got, want, mpath)
                         if d:
                             res.failures.append(Failure(f"C18:value-differs:{entry_kind(entry)}:{ok}", f"read_object({mpath!r}, obj_out={ok}, budget={b}): {d}", replay))
-                        if ok == "match" and is_t and sg.tensor_bytes(obj_out) != sg.tensor_bytes(want):
+                        if ok in ("match", "match-view") and is_t and sg.tensor_bytes(obj_out) != sg.tensor_bytes(want):
                             res.failures.append(Failure("C18:matching-obj_out-not-filled", f"read_object({mpath!r}) did not fill the matching obj_out (budget={b})", replay))
+                        ser = getattr(entry, "serializer", None) or (entry.chunks[0].tensor.serializer if getattr(entry, "chunks", None) else "buffer_protocol")
                         if b is not None and is_t:
                             for tot, n in rec.max_alive():
                                 if tot > b and n > 1:
-                                    res.failures.append(Failure("C18:inflight-buffers-exceed-budget",
+                                    res.failures.append(Failure("C18:inflight-buffers-exceed-budget" if ser == "buffer_protocol" else "C18:inflight-buffers-exceed-budget:torch_save-archive-larger-than-declared-cost",
                                                                 f"read_object({mpath!r}, budget={b}): {tot} buffer bytes alive in {n} buffers [{entry_kind(entry)} nobatch={knobs['nobatch']}]", replay))
                                     break
-                            if getattr(entry, "serializer", "buffer_protocol") == "buffer_protocol" and not isinstance(entry, ObjectEntry):
+                            if ser == "buffer_protocol" and not isinstance(entry, ObjectEntry):
                                 for tot, n in rec.uncopied():
                                     if tot > b and n > 1:
                                         res.failures.append(Failure("C18:inflight-buffers-exceed-budget:copy-pending",
@@ -210,7 +221,10 @@ def correspond(ctx: Ctx) -> Result:
                                 base = entry.byte_range[0] if entry.byte_range else 0
                                 got_ranges = sorted([list(e[2]) for e in reads if e[2] is not None and e[2][0] != e[2][1]])
                                 shape = list(want.shape)
-                                exp_term = f"({term(shape)}, true, {term(esize)}, {term(b)}, {term(base)})"
+                                # flat: can the destination the library tiles be viewed as 1-d?  (none / match / mismatch -> a
+                                # freshly allocated or contiguous tensor; match-view -> not flattenable, tiled along dim 0)
+                                flat = "false" if (ok == "match-view" and not obj_out.is_contiguous()) else "true"
+                                exp_term = f"({term(shape)}, {flat}, {term(esize)}, {term(b)}, {term(base)})"
                                 coq.append((exp_term, got_ranges))
                                 meta.append(replay)
             # paths not in the manifest raise
@@ -320,6 +334,8 @@ def replay(ctx: Ctx, data):
             obj_out = None
             if isinstance(want, torch.Tensor) and ok == "match":
                 obj_out = torch.zeros(list(want.shape), dtype=want.dtype)
+            elif isinstance(want, torch.Tensor) and ok == "match-view":
+                obj_out = matching_view(want)
             elif isinstance(want, torch.Tensor) and ok == "mismatch":
                 obj_out = torch.ones([2] + list(want.shape), dtype=torch.float32)
             with Recorder() as rec:
